@@ -43,7 +43,7 @@ def collect(ctx, props, plans, design_cfgs=(), refinement=False, report_deaths=F
     ops = {}
     design = []
     # the design-level TLC checks run on the first curated (non-cover) world
-    design_plan = next((p for p in plans if not p.get("cover")), plans[0])
+    design_plan = next((p for p in plans if not p.get("cover") and not p.get("conc")), plans[0])
     for plan in plans:
         run_ = mirrorlib.MirrorRun(ctx, plan["world"])
         run_.build()
@@ -60,6 +60,19 @@ def collect(ctx, props, plans, design_cfgs=(), refinement=False, report_deaths=F
                 ctx.log("TLC %s on world %s: %s distinct states%s" % (cfg, plan["world"], res.get("distinct"),
                         (", design counterexample for " + cex) if cex else ""))
         behs = []
+        if plan.get("conc"):
+            # concurrent callers: two Handle*Proofs calls parked between their two phases in every interleaving with each
+            # other and with proposed headers / state machine entrances, a caller giving up while the kernel works on its request
+            behs, dres, res, exported = run_.conc_cover(plan["steps"], timeout=plan.get("tlc_timeout", 1500))
+            cex = None
+            if dres["violated"]:
+                m = re.search(r"Error: (Invariant|Action property) (\w+) is violated", dres["out"])
+                cex = m.group(2) if m else "?"
+            design.append({"cfg": "Mirror_conc.cfg", "world": plan["world"], "checked": "C01_CommitHasCert C04_Chain C06_Recount C07_ViewVS in every interleaving of two callers",
+                           "distinct_states": dres.get("distinct", 0), "generated": dres.get("states", 0), "design_counterexample": cex})
+            design.append({"cfg": "Mirror_conccover.cfg", "world": plan["world"], "checked": "edge cover (concurrent callers)", "distinct_states": res.get("distinct", 0),
+                           "generated": res.get("states", 0), "design_counterexample": None, "exported": exported, "maximal_behaviours": len(behs)})
+            ctx.log("world %s: concurrent callers <= %d steps: %s distinct (design), %d maximal behaviours" % (plan["world"], plan["steps"], dres.get("distinct"), len(behs)))
         if plan.get("cover"):
             behs, res, exported = run_.cover(plan["steps"], edge=plan.get("edge", False), crash=plan.get("crash", False),
                                              avoid=plan.get("avoid", True), timeout=plan.get("tlc_timeout", 1500))
@@ -68,7 +81,7 @@ def collect(ctx, props, plans, design_cfgs=(), refinement=False, report_deaths=F
                            "generated": res.get("states", 0), "design_counterexample": None, "exported": exported, "maximal_behaviours": len(behs)})
             ctx.log("world %s: %s cover <= %d steps: %s distinct, %d maximal behaviours" % (plan["world"], "edge" if plan.get("edge") else "state",
                     plan["steps"], res.get("distinct"), len(behs)))
-        for s in range(0 if plan.get("cover") else plan.get("seeds", 1)):
+        for s in range(0 if (plan.get("cover") or plan.get("conc")) else plan.get("seeds", 1)):
             res = run_.tlc("Mirror_sim.cfg", simulate="num=%d" % plan["sim"], depth=plan["steps"] + 2,
                            extra=["-seed", str(ctx.seed * 1000 + s)], workers=1, timeout=plan.get("tlc_timeout", 900),
                            defines={"MaxSteps": plan["steps"], "AvoidPanics": "TRUE" if plan.get("avoid", True) else "FALSE",
